@@ -3,8 +3,11 @@
 package theine_test
 
 import (
+	"bytes"
 	"context"
+	"errors"
 	"fmt"
+	"io"
 	"sort"
 	"sync"
 	"testing"
@@ -42,6 +45,7 @@ type apiCase struct {
 	Doorkeeper bool      `json:"doorkeeper,omitempty"`
 	Steps      []apiStep `json:"steps"`
 	Overflow   int       `json:"overflow,omitempty"` // hybrid chains: distinct keys stored once at the end
+	Reload     bool      `json:"reload,omitempty"`   // SaveCache / LoadCache round trip through the wrappers after the model phase
 	Churn      int       `json:"churn,omitempty"`    // doorkeeper: this many further keys are stored (twice each) so that the shards' filters are replaced and aged
 }
 
@@ -91,9 +95,23 @@ func genAPI(t *rapid.T) apiCase {
 		return s
 	})
 	c.Steps = rapid.SliceOfN(step, 1, 40).Draw(t, "steps")
+	c.Reload = rapid.IntRange(0, 2).Draw(t, "reload") == 0
 	if c.Doorkeeper && rapid.Bool().Draw(t, "churnCase") {
 		c.MaxSize = 100000
 		c.Churn = rapid.SampledFrom([]int{600, 1500, 4000}).Draw(t, "churn")
+	}
+	if c.Reload {
+		// known finding C11-region-gates: a load drops entries when a saved region is larger than the
+		// target's default capacity for it, e.g. a window entry whose cost was raised in place above the
+		// window capacity (1% of MaxSize). Reload cases therefore use unit costs only (oversize costs, which
+		// are refused, stay), so that every region of the saved cache is within its default capacity.
+		c.CostFn = false
+		for i := range c.Steps {
+			if c.Steps[i].Cost <= c.MaxSize {
+				c.Steps[i].Cost = 1
+			}
+			c.Steps[i].Big = false
+		}
 	}
 	if c.Chain == "hybrid" || c.Chain == "hybrid-loading" || c.Chain == "loading-hybrid" {
 		c.Overflow = rapid.SampledFrom([]int{0, 0, 60, 100}).Draw(t, "overflow")
@@ -153,6 +171,8 @@ type apiClient struct {
 	stats  func() theine.Stats
 	wait   func()
 	close  func()
+	save   func(version uint64, w io.Writer) error
+	load   func(version uint64, r io.Reader) error
 	loads  bool
 }
 
@@ -201,39 +221,39 @@ func apiBuild(c apiCase, sec *apiSecondary, notes *[]apiNote, nmu *sync.Mutex, l
 			return apiClient{}, err
 		}
 		return apiClient{set: x.SetWithTTL, get: func(k int) (int, bool, error) { v, ok := x.Get(k); return v, ok, nil }, del: x.Delete,
-			rng: x.Range, length: x.Len, est: x.EstimatedSize, stats: x.Stats, wait: x.Wait, close: x.Close}, nil
+			rng: x.Range, length: x.Len, est: x.EstimatedSize, stats: x.Stats, wait: x.Wait, close: x.Close, save: x.SaveCache, load: x.LoadCache}, nil
 	case "loading":
 		x, err := b.Loading(loader).Build()
 		if err != nil {
 			return apiClient{}, err
 		}
 		return apiClient{set: x.SetWithTTL, get: lget(x.Get), del: x.Delete, rng: x.Range, length: x.Len, est: x.EstimatedSize,
-			stats: x.Stats, wait: x.Wait, close: x.Close, loads: true}, nil
+			stats: x.Stats, wait: x.Wait, close: x.Close, save: x.SaveCache, load: x.LoadCache, loads: true}, nil
 	case "build-with-loader":
 		x, err := b.BuildWithLoader(loader)
 		if err != nil {
 			return apiClient{}, err
 		}
 		return apiClient{set: x.SetWithTTL, get: lget(x.Get), del: x.Delete, rng: x.Range, length: x.Len, est: x.EstimatedSize,
-			stats: x.Stats, wait: x.Wait, close: x.Close, loads: true}, nil
+			stats: x.Stats, wait: x.Wait, close: x.Close, save: x.SaveCache, load: x.LoadCache, loads: true}, nil
 	case "hybrid":
 		x, err := b.Hybrid(sec).AdmProbability(1).Build()
 		if err != nil {
 			return apiClient{}, err
 		}
-		return apiClient{set: x.SetWithTTL, get: x.Get, del: func(k int) { _ = x.Delete(k) }, close: x.Close}, nil
+		return apiClient{set: x.SetWithTTL, get: x.Get, del: func(k int) { _ = x.Delete(k) }, close: x.Close, save: x.SaveCache, load: x.LoadCache}, nil
 	case "hybrid-loading":
 		x, err := b.Hybrid(sec).Workers(3).Loading(loader).Build()
 		if err != nil {
 			return apiClient{}, err
 		}
-		return apiClient{set: x.SetWithTTL, get: lget(x.Get), del: func(k int) { _ = x.Delete(k) }, close: x.Close, loads: true}, nil
+		return apiClient{set: x.SetWithTTL, get: lget(x.Get), del: func(k int) { _ = x.Delete(k) }, close: x.Close, save: x.SaveCache, load: x.LoadCache, loads: true}, nil
 	default: // loading-hybrid
 		x, err := b.Loading(loader).Hybrid(sec).Build()
 		if err != nil {
 			return apiClient{}, err
 		}
-		return apiClient{set: x.SetWithTTL, get: lget(x.Get), del: func(k int) { _ = x.Delete(k) }, close: x.Close, loads: true}, nil
+		return apiClient{set: x.SetWithTTL, get: lget(x.Get), del: func(k int) { _ = x.Delete(k) }, close: x.Close, save: x.SaveCache, load: x.LoadCache, loads: true}, nil
 	}
 }
 
@@ -584,6 +604,85 @@ func execAPI(c apiCase, x *verifkit.Ctx) (fail *verifkit.Failure) {
 			}
 		}
 	}
+	// SaveCache / LoadCache through the public wrappers (C11 / C12 as far as a client sees them): a new cache
+	// built by the same chain and loaded from the stream serves exactly what the saved one serves, a load
+	// under another version fails with nothing readable
+	if c.Reload && cl.wait != nil {
+		// (C11 speaks of a quiescent cache; the hybrid types have no Wait, so a client cannot know when the
+		// queued insert events have reached the policy - entries still queued are not in the stream)
+		cl.wait()
+		var buf bytes.Buffer
+		if err := cl.save(3, &buf); err != nil {
+			return failf("api/save-error", "SaveCache: %v", len(c.Steps)-1, err)
+		}
+		stream := buf.Bytes()
+		for _, ver := range []uint64{3, 4} {
+			var notes2 []apiNote
+			var nmu2 sync.Mutex
+			ls2 := &apiLoaderScript{}
+			cl2, err := apiBuild(c, &apiSecondary{m: map[int]apiSecItem{}}, &notes2, &nmu2, ls2)
+			if err != nil {
+				return verifkit.Failf("api/build", "builder chain %s: %v", c.Chain, err)
+			}
+			lerr := cl2.load(ver, bytes.NewReader(stream))
+			if ver == 3 && lerr != nil {
+				cl2.close()
+				return failf("api/load-error", "LoadCache of a stream just saved by the same builder chain: %v", len(c.Steps)-1, lerr)
+			}
+			if ver == 4 && lerr == nil {
+				cl2.close()
+				return failf("api/load/other-version-accepted", "a stream saved under version 3 was loaded under version 4 without error", len(c.Steps)-1)
+			}
+			if ver == 4 && !errors.Is(lerr, theine.VersionMismatch) {
+				cl2.close()
+				return failf("api/load/not-version-mismatch", "loading under another version failed with %v, not VersionMismatch", len(c.Steps)-1, lerr)
+			}
+			for k, e := range model {
+				gv, gok, _ := apiPeek(cl2, ls2, k)
+				st := state(e)
+				var f *verifkit.Failure
+				switch {
+				case ver == 4 && gok:
+					f = failf("api/load/other-version-entries", "after a refused load (other version) key %d reads %d", len(c.Steps)-1, k, gv)
+				case ver == 3 && st == 2 && (!gok || gv != e.v):
+					f = failf("api/reload/lost-or-changed", "key %d held %d (cost %d) when the cache was saved; the cache loaded from the stream gives (%d, %v)", len(c.Steps)-1, k, e.v, e.cost, gv, gok)
+				case ver == 3 && st == 0 && gok:
+					f = failf("api/reload/served-after-deadline", "key %d was past its deadline when the cache was saved and loaded; the loaded cache serves %d", len(c.Steps)-1, k, gv)
+				case ver == 3 && gok && gv != e.v:
+					f = failf("api/reload/wrong-value", "key %d: the loaded cache serves %d, the saved value is %d", len(c.Steps)-1, k, gv, e.v)
+				}
+				if f != nil {
+					cl2.close()
+					return f
+				}
+			}
+			if ver == 3 {
+				// deadlines travel with the stream: one finest tick beyond the last one nothing with a TTL is served
+				var last int64
+				for _, e := range model {
+					if e.hard > last && e.hard < 29_000_000_000 {
+						last = e.hard
+					}
+				}
+				if last > 0 && last+1 <= 29_000_000_000 && last >= now() {
+					save := clock.VerifWall.Load()
+					clock.VerifWall.Store(apiEpoch + last)
+					for k, e := range model {
+						if e.hard != 0 && e.hard <= last {
+							if gv, gok, _ := apiPeek(cl2, ls2, k); gok {
+								cl2.close()
+								clock.VerifWall.Store(save)
+								return failf("api/reload/served-after-deadline", "key %d (deadline %d) is served by the loaded cache at virtual time %d: %d", len(c.Steps)-1, k, e.hard, last, gv)
+							}
+						}
+					}
+					clock.VerifWall.Store(save)
+				}
+			}
+			cl2.close()
+		}
+		x.Class("save-load-round-trip")
+	}
 	x.Class("chain-" + c.Chain)
 	x.ClassIf(c.CostFn, "cost-function")
 	x.ClassIf(c.Doorkeeper, "doorkeeper")
@@ -738,7 +837,7 @@ func minInt(a, b int) int {
 func TestVerifC06API(t *testing.T) {
 	verifkit.Run(t, verifkit.Spec[apiCase]{
 		ID: "C06", Gen: genAPI, Exec: execAPI,
-		Rule: "C06 (public API tier): rapid draws one of the six public builder chains (Build, Loading.Build, BuildWithLoader, Hybrid.AdmProbability.Build, Hybrid.Workers.Loading.Build, Loading.Hybrid.Build), MaxSize, cost function on/off, doorkeeper on/off, a removal listener, and up to 40 steps of SetWithTTL (costs 1..30, MaxSize+1, 5 x MaxSize, or 0 = cost function, which prices some values above MaxSize; TTLs 1 ns..1 h or none) / Get (loading chains: scripted loader value, cost, TTL) / Delete / advance of the virtual clock to and around the deadlines / views (Wait, Range, Len, EstimatedSize); the costs of all keys together fit into MaxSize, so nothing may be evicted; reference map with per-key hard deadline (never served at or after it) and soft deadline (a miss is acceptable from then on: TTL-less Set over an unexpired TTL'd value); hybrid chains end with an overflow phase of 60 or 100 distinct keys stored once (3 or 5 x MaxSize in total; fewer insert events per case than the hand-off queue has slots) all of which must be found in one of the tiers; half of the doorkeeper cases use MaxSize 100000 and end with a churn phase (600..4000 further keys, each stored until the doorkeeper admits it, so that every shard's filter is re-allocated and emptied while the entries stay): every admitted key must be readable and writable afterwards; non-trivial = a churn phase, or TTL and non-TTL writes mixed on a key, a write after expiry, an oversize cost, or a load",
+		Rule: "C06 (public API tier): rapid draws one of the six public builder chains (Build, Loading.Build, BuildWithLoader, Hybrid.AdmProbability.Build, Hybrid.Workers.Loading.Build, Loading.Hybrid.Build), MaxSize, cost function on/off, doorkeeper on/off, a removal listener, and up to 40 steps of SetWithTTL (costs 1..30, MaxSize+1, 5 x MaxSize, or 0 = cost function, which prices some values above MaxSize; TTLs 1 ns..1 h or none) / Get (loading chains: scripted loader value, cost, TTL) / Delete / advance of the virtual clock to and around the deadlines / views (Wait, Range, Len, EstimatedSize); the costs of all keys together fit into MaxSize, so nothing may be evicted; reference map with per-key hard deadline (never served at or after it) and soft deadline (a miss is acceptable from then on: TTL-less Set over an unexpired TTL'd value); hybrid chains end with an overflow phase of 60 or 100 distinct keys stored once (3 or 5 x MaxSize in total; fewer insert events per case than the hand-off queue has slots) all of which must be found in one of the tiers; a third of the cases on the chains that have Wait (Build, Loading.Build, BuildWithLoader) save the cache, load the stream into a new cache of the same chain (same reads; nothing served past a saved deadline) and under another version (VersionMismatch, nothing readable); half of the doorkeeper cases use MaxSize 100000 and end with a churn phase (600..4000 further keys, each stored until the doorkeeper admits it, so that every shard's filter is re-allocated and emptied while the entries stay): every admitted key must be readable and writable afterwards; non-trivial = a churn phase, or TTL and non-TTL writes mixed on a key, a write after expiry, an oversize cost, or a load",
 		Assumptions: []string{
 			"sequential client; virtual wall clock (hook H1) with the real once-a-second maintenance tick running in the background: Len and EstimatedSize are therefore judged as intervals (expired entries may or may not have been reclaimed), reads and Range exactly",
 			"entry pool off; the doorkeeper's answers for keys that are not certainly resident are accepted either way (bloom filter)",
